@@ -33,6 +33,7 @@ def run(ctx):
     ctx.step(common.no_repeated_moves, ctx, "C17.moves", fns, floor=1)
     ctx.step(value, ctx)
     ctx.step(source, ctx)
+    ctx.step(copies, ctx)
     ctx.step(addtype, ctx)
     ctx.step(byref, ctx)
     ctx.step(pair, ctx)
@@ -74,7 +75,8 @@ def source(ctx):
                 e = work.pop()
                 for d in f.descendants(e):
                     if d["k"] == "MemberExpr" and d["m"].get("is_field") and d["m"].get("rec") == CLS and \
-                            d["m"]["name"] != "objectMap" and path(f, f.s(d["base"])) == "this":
+                            d["m"]["name"] != "objectMap" and path(f, f.s(d["base"])) == "this" and \
+                            "shared_ptr<" in d.get("t", ""):       # only a member that can hold such a pointer
                         bad = d
                     if d["k"] == "DeclRefExpr" and d["d"].get("k") == "local" and d["d"]["id"] not in seen:
                         seen.add(d["d"]["id"])
@@ -86,6 +88,44 @@ def source(ctx):
             ctx.ob(rid, bad is None, f.loc(r), "%s returns an object taken from objectMap (or null)" % f.name,
                    "" if bad is None else "the returned pointer comes from member '%s': an answer remembered outside the map "
                    "survives the entry's removal / replacement" % bad["m"]["name"], fn=f.label, inst=f.qname)
+
+
+def copies(ctx):
+    """the value-semantic results are COPIED out of the map inside the critical section: a shared_ptr copy-constructed
+    from anything but a local value (a map element reached through an iterator, a reference a helper returned) is made
+    with mapLock held - made later, it reads a map node that a concurrent removeObject may already have destroyed"""
+    from ..guards import class_functions, locks_of
+    rid = "C17.copy"
+    ctx.rule(rid, "every shared_ptr copied out of map storage is copied while mapLock is held", floor=3)
+    for f, top in class_functions(ctx.fb, CLS):
+        la = None
+        for st in f.stmts.values():
+            if st["k"] not in CTORS or len(st.get("args", [])) != 1:
+                continue
+            t = st.get("t", "")
+            pts = (st.get("callee") or {}).get("params", [])
+            if not re.match(r"^(const )?std::shared_ptr<", t) or not pts or \
+                    not re.match(r"^const std::shared_ptr<.*> ?&$", pts[0]):
+                continue
+            a = unwrap(f, f.s(st["args"][0]))
+            if a is None:
+                continue
+            if a["k"] == "DeclRefExpr":
+                d = a["d"]
+                if d.get("k") in ("local", "param") and not d.get("ref") and not d.get("inl_ret"):
+                    continue            # copy of a local value
+                if d.get("k") == "param" and f.access == "public" and not f.is_lambda:
+                    continue            # the caller's object
+                if d.get("inl_ret") and not d.get("ref"):
+                    continue            # helper result returned by value: it was copied inside the helper
+            pos = f.pos_of(st)
+            if pos is None:
+                continue
+            la = la or locks_of(ctx.eng, ctx.fb, f)
+            ok = la.holds(pos, "this.mapLock", "S")
+            ctx.ob(rid, ok, f.loc(st), "%s copies the stored shared_ptr under mapLock" % top.name,
+                   "" if ok else "the copy is made after mapLock was released (source: %s): a concurrent removeObject can destroy the "
+                   "map node, and with it the shared_ptr being copied, in between" % (path(f, a) or a["k"]), fn=f.label, inst=f.qname)
 
 
 def byref(ctx):
